@@ -68,7 +68,8 @@ def h_symfile(timecnt, typecnt):
         types["off%d" % j] = int
         types["dst%d" % j] = int
     types["u"] = int
-    ABBR = "A\x00B\x00C\x00D\x00"
+    ABBR = "WXYZ\x00V\x00"          # types 0..2 point at offsets 0,1,2: 'WXYZ', 'XYZ', 'YZ' (suffix sharing, as zic emits)
+    abbr_of = lambda j: ABBR[j:ABBR.find("\x00", j)]
 
     real_unpack = struct.unpack
 
@@ -95,7 +96,7 @@ def h_symfile(timecnt, typecnt):
             if timecnt:
                 plan += [_Tok("times", tuple(ts)), _Tok("idx", tuple(xs))]
             for j in range(typecnt):
-                plan.append(_Tok("tt", (offs[j], dsts[j], 2 * j)))
+                plan.append(_Tok("tt", (offs[j], dsts[j], j)))
             plan.append(_Tok("abbr", ABBR))
 
             class _StructShim(object):
@@ -109,7 +110,7 @@ def h_symfile(timecnt, typecnt):
             data += struct.pack(">%dl" % timecnt, *ts) if timecnt else b""
             data += bytes(xs)
             for j in range(typecnt):
-                data += struct.pack(">lbb", offs[j], dsts[j], 2 * j)
+                data += struct.pack(">lbb", offs[j], dsts[j], j)
             data += ABBR.encode()
             z = tz.tzfile(io.BytesIO(data))
         # reference: piecewise constant function of the UTC instant
@@ -144,7 +145,7 @@ def h_symfile(timecnt, typecnt):
                                        ":first" if k == 0 else "", ":last" if k == timecnt - 1 else "")
         ctx.check(S.eq(S.sub(w, u), eoff), "wall - UTC is not the offset the data assigns to the interval",
                   key="sym:%dx%d:data-offset:%s" % (timecnt, typecnt, shape))
-        ctx.check(wall.tzname() == "ABCD"[ety], "abbreviation differs from the data",
+        ctx.check(wall.tzname() == abbr_of(ety), "abbreviation differs from the data",
                   key="sym:%dx%d:data-abbr:%s" % (timecnt, typecnt, shape))
         ctx.check(S.eq(tsdt.secs(wall.utcoffset()), eoff), "reported utcoffset differs from the data",
                   key="sym:%dx%d:data-utcoffset:%s" % (timecnt, typecnt, shape))
